@@ -120,6 +120,13 @@ func main() {
 		cmdWorker(os.Args[2:])
 	case "replay":
 		os.Exit(cmdReplay(os.Args[2:]))
+	case "replaybin":
+		// gosym replaybin <pkg> <h1,h2> <outdir>: builds the native replay test binary (debugging aid)
+		bin, err := buildReplayBinary(os.Args[4], os.Args[2], strings.Split(os.Args[3], ","))
+		if err != nil {
+			fatalf("%v", err)
+		}
+		fmt.Println(bin)
 	case "ssa":
 		p := loadProgram([]string{os.Args[2]})
 		fn := p.pkgs[os.Args[2]].Func(os.Args[3])
